@@ -133,6 +133,25 @@ TEXT["C12"] = dict(
     design_ref="5 (C12)",
 )
 
+TEXT["C13"] = dict(
+    category="exploration",
+    technique="seeded simulation: well-nested extract/extract_child/fill_context/extract_outermost trees issued from hooks on 1-4 real threads under a baton scheduler; per-thread option-stack model",
+    text="Tape-drawn call trees (depth <= 4, all four option combinations per level, raising hooks, extract_outermost raising through the option push) run on 1-4 real threads; the baton (one runnable thread at a time, "
+    "tape decides) is handed over at every hook entry. Every hook reads the options in force through extract_child(for_task=True) (stub vs populated) and Frame.contexts of an inner extract_child and compares with the "
+    "model's top of stack for its own thread; after each nested call the outer options must be back; outside any extraction extract_child must refuse; bare fill_context behaves as (True, False).",
+    note="Trusted: baton scheduler (real threads parked on semaphores); switches only at hook entries; ExtractOptions.push itself is not pre-empted at bytecode level.",
+    design_ref="5 (C13), 2.3",
+)
+TEXT["C17"] = dict(
+    category="exploration",
+    technique="seeded simulation: histories over the real sys.modules (fake module names) vs. installation model; 2-4 baton threads entering extract with glue functions yielding mid-way; glue_lock replaced by a baton-aware lock",
+    text="Histories of add / remove / re-add / replace-in-place / late built-in registration / extract over fake modules with module glue, pending built-in glue, both, neither or raising glue; after every extract each glue function's "
+    "call count must equal the model's (exactly once, module-provided beats built-in, never both, one RuntimeWarning per raising glue, later glue still runs). Threaded legs: several threads enter extract at once while glue functions hand "
+    "the baton over mid-way; an extract may not return before every glue due at its start has finished.",
+    note="Trusted: the installation model; SimLock has the mutual-exclusion semantics of threading.Lock; no bytecode-level pre-emption inside add_glue_as_needed (see DESIGN.md section 2.3).",
+    design_ref="5 (C17)",
+)
+
 PENDING_REASON = "check not built yet in this round (work in progress; see DESIGN.md section 5 for the planned simulation)"
 
 ALL = ["C%02d" % i for i in range(1, 21)]
